@@ -89,6 +89,18 @@ PROPS = {
         "bounds": {"quick": "as C03 (same harness, supply/recipient assertions)", "thorough": "as C03"},
         "assumptions": BATCH_ASSUMPTIONS,
     },
+    "C18": {
+        "asserts": ["C18.", "uncaught-panic"],
+        "harnesses": [
+            {"id": "api-isolation", "func": "VerifAPIIsolation", "pkg": "srv", "pkgname": "srv", "load": ["./srv"],
+             "params": {"quick": {}, "thorough": {}}, "must_cover": ["ran"], "race": True, "max_witness_replays": 3},
+        ],
+        "bounds": {"quick": "two goroutine bodies: the real getGlobalRichList handler (API) and the GetPegNetRateAverages call of the holding pass (sync) on one *Pegnetd; lockset analysis over all accesses to its fields and the maps published through them, on every solver-feasible path (rates, balances symbolic); handler answered before and during an open block transaction with pending writes",
+                   "thorough": "same"},
+        "assumptions": ["Eraser-style lockset discipline: conflicting accesses from different goroutines need a common mutex (the code uses no other synchronisation); confirmed natively by the Go race detector running both bodies concurrently",
+                        "two goroutines; getRichList shares the same call into the cache as getGlobalRichList; the word-sized read of Sync.Synced by the API (single writer) is not part of this harness; the HTTP stack is outside (DESIGN §9)",
+                        "reads through *sql.DB see committed data only (SQLite isolation contract, validated natively on real SQLite)"],
+    },
     "C19": {
         "asserts": ["C19.", "uncaught-panic"],
         "harnesses": [
